@@ -119,3 +119,24 @@ pub fn shard_rng(run: &Run, prop: u64, shard: u64) -> Rng {
 pub fn n_shards(run: &Run) -> u64 {
     if run.is_thorough() { 16 } else { 8 }
 }
+
+/// Execute a case with every resolver gated, under the given chooser.
+pub fn run_scheduled(
+    schema: &AnySchema,
+    case: &Case,
+    chooser: &mut dyn vh_core::vsched::Chooser,
+) -> (Option<Response>, Vec<vh_schema::Event>, vh_core::vsched::RunReport) {
+    let sched = vh_core::vsched::Sched::new();
+    let env = Env::new(case.ts.clone(), case.world.clone()).with_sched(sched.clone());
+    let req = case.request(&env);
+    let schema = schema.clone();
+    let (resp, report) = sched.run(async move { schema.execute_async(req).await }, chooser, false, 100_000);
+    (resp, env.log.snapshot(), report)
+}
+
+/// A fault-free world for the given flavour (see `World::null_items_builtin_only`).
+pub fn world_for(flavour: &str, seed: u64) -> World {
+    let mut w = World::new(seed);
+    w.null_items_builtin_only = flavour == "dynamic";
+    w
+}
